@@ -66,6 +66,8 @@ def gen_geometry(rng: random.Random, kind: str, small=False):
         r, c = 8, 12
     elif cls == "wide":
         r, c = rng.choice([1, 1, 2]), rng.randint(100, 125)
+        if rng.random() < 0.25:
+            r, c = 1, rng.randint(1000, 1010)  # four-digit column numbers
     elif cls == "big":
         r, c = rng.choice([(16, 24), (6, 8), (4, 6)])
     else:
@@ -109,6 +111,10 @@ def gen_labware(rng, name, kind=None, vclass="int", fill="mixed", limits="loose"
                 v = float(mode)
             row.append(float(v))
         initial.append(row)
+    if cols >= 1000:
+        # a strip of > 1000 positions: only a handful of them filled (keeps the component tables small)
+        keep = {(rng.randrange(rows), rng.choice([0, 1, 98, 99, 100, 998, 999, 1000, cols - 1])) for _ in range(5)}
+        initial = [[(initial[r][c] if (r, c) in keep else 0.0) for c in range(cols)] for r in range(rows)]
     d = {
         "kind": kind,
         "name": name,
